@@ -91,6 +91,13 @@ def make_int_binops(consts):
                           ref=(lambda k, rf=rf: rf(k.v("x"), k.v("y"))),
                           dom=(lambda k, d=d: d(k, k.v("x"), k.v("y"))),
                           tags={"int", "binop", nm, "ss"} | ({"ret:bool"} if nm in CMP else set())))
+        if nm in ("mul", "lt", "eq", "truediv", "floordiv", "and", "add"):
+            # one operand public (PubVal), the other private
+            ents.append(Entry("int_%s_ps" % nm,
+                              (lambda k, f=f: f(k.Pub("x"), k.S("y"))), ("x", "y"),
+                              ref=(lambda k, rf=rf: rf(k.v("x"), k.v("y"))),
+                              dom=(lambda k, d=d: d(k, k.v("x"), k.v("y"))),
+                              tags={"int", "binop", nm, "ss", "pub"} | ({"ret:bool"} if nm in CMP else set())))
         for c in consts:
             cn = ("m%d" % -c) if c < 0 else str(c)
             ents.append(Entry("int_%s_sc%s" % (nm, cn),
